@@ -204,3 +204,52 @@ fn e7_current_after_end_of_multilevel_bucket() {
     let _ = cur;
     let _ = std::fs::remove_file(&p);
 }
+
+// E8 (C07/C08): inside a write transaction, deleting every entry of one leaf must not truncate scans.
+#[test]
+fn e8_scan_past_a_leaf_emptied_in_this_transaction() {
+    let p = tmp("e8");
+    let db = OpenOptions::new().pagesize(1024).open(&p).unwrap();
+    {
+        let tx = db.tx(true).unwrap();
+        let b = tx.create_bucket("b").unwrap();
+        for i in 0..40u32 { b.put(format!("k{:04}", i), vec![b'v'; 400]).unwrap(); }      // two entries per leaf
+        tx.commit().unwrap();
+    }
+    let tx = db.tx(true).unwrap();
+    let b = tx.get_bucket("b").unwrap();
+    for i in 10..14u32 { b.delete(format!("k{:04}", i)).unwrap(); }                         // empties two whole leaves
+    let scan = b.cursor().count();
+    let from8 = b.range::<std::ops::RangeFrom<&[u8]>>(b"k0008".as_ref()..).count();
+    let _ = std::fs::remove_file(&p);
+    assert_eq!(scan, 36, "full scan inside the transaction");
+    assert_eq!(from8, 28, "range scan from k0008 inside the transaction");
+}
+
+// E9 (C01): a transaction that empties whole subtrees of a three-level bucket must commit without panicking.
+#[test]
+fn e9_commit_after_emptying_an_only_child() {
+    fn key(i: u32) -> Vec<u8> { let mut k = format!("k{:05}", i).into_bytes(); while k.len() < 200 { k.push(b'_'); } k }
+    let p = tmp("e9");
+    let db = OpenOptions::new().pagesize(1024).open(&p).unwrap();
+    {
+        let tx = db.tx(true).unwrap();
+        let b = tx.create_bucket("b").unwrap();
+        for i in 0..120u32 { b.put(key(i * 2), vec![b'v'; 100]).unwrap(); }
+        tx.commit().unwrap();
+    }
+    {
+        let tx = db.tx(true).unwrap();
+        {
+            let b = tx.get_bucket("b").unwrap();
+            for i in 10..100u32 { b.delete(key(i * 2)).unwrap(); }
+            for i in 50..52u32 { b.put(key(i * 2 + 1), vec![b'O'; 8]).unwrap(); }
+        }
+        tx.commit().unwrap();
+    }
+    db.check().unwrap();
+    let tx = db.tx(false).unwrap();
+    let n = tx.get_bucket("b").unwrap().cursor().count();
+    let _ = std::fs::remove_file(&p);
+    assert_eq!(n, 32);
+}
